@@ -804,10 +804,10 @@ theorem bj_preDev (reg : Registry) (opts : Opts) (plug : Plug) :
   have hq : Tree.LocalOK (Tree.envOf reg opts plug) (Tree.wfqB false) :=
     Tree.localOK_wfqB _ false (fun h => by cases h)
   have hfix := Tree.wfqB_fixChoice false
-  have h1 := augmentLoop_bj hq reg ((Tree.pending0 reg opts plug).foldl (fun n p => n + p.2.length) 0 + 2)
-    ((Tree.augOrder reg).map (·.seq)).toArray (Tree.pstate0 reg opts plug) (bj_pstate0 reg opts plug hq)
-  have h2 := leftover_bj hq reg (Tree.afterLoop reg opts plug).1 (Tree.fixAll (Tree.afterLoop reg opts plug).2)
-    (fixAll_bj reg hfix _ h1)
+  have h1 := Tree.afterRounds_state reg opts plug (BJ reg (Tree.wfqB false))
+    (fun fuel mods s h => augmentLoop_bj hq reg fuel mods s h) (fun s h => fixAll_bj reg hfix s h)
+    (bj_pstate0 reg opts plug hq)
+  have h2 := leftover_bj hq reg (Tree.afterRounds reg opts plug).1 (Tree.afterRounds reg opts plug).2 h1
   unfold Tree.preDev
   split
   · exact fixAll_bj reg hfix _ h2
